@@ -577,6 +577,54 @@ def distribution(cases, impl):
     return dict(sorted(d.items()))
 
 
+# ---------------------------------------------------------------- the mirrored trait with associated constants (harness/mirrors/src/extras.rs)
+def gen_xcases(rng, tier):
+    out = []
+    for k in range(60 if tier == "quick" else 600):
+        ops = []
+        for _ in range(rng.randint(1, 4)):
+            r = rng.random()
+            data = bytes(rng.randrange(256) for _ in range(rng.randint(0, 14))).hex()
+            ops.append("all:" + data if r < 0.5 else "put:" + data if r < 0.65 else "desc" if r < 0.85 else "consts")
+        if rng.random() < 0.5:
+            ops.append("fin:" + bytes(rng.randrange(256) for _ in range(rng.randint(0, 6))).hex())
+        acc = [rng.choice([0, 1, 1, 2, 2, 2, 3, 9]) for _ in range(rng.randint(0, 12))]
+        out.append(f"xcase x{k} {'partial' if rng.random() < 0.4 else 'strict'} T {rng.randrange(256)} P {len(acc)} "
+                   + " ".join(map(str, acc)) + (" " if acc else "") + f"O {len(ops)} " + " ".join(ops))
+    return out
+
+
+def xcase_bad(obs):
+    sides = split_sides(obs, ["P", "M"])
+    # the mock's drop verdict is comparable only when both of its clauses were used (an unused each_call clause is reported as a dead mock)
+    log = next((l for l in sides["M"] if l.startswith("log")), "")
+    if not ("put(" in log and "tag" in log.split()):
+        sides = {k: [l for l in v if not l.startswith("end=")] for k, v in sides.items()}
+    return sides["P"] != sides["M"] or not sides["P"]
+
+
+def shrink_xcase(binary, line):
+    """drop ops / script entries while the two sides still differ"""
+    def parse(l):
+        t = l.split()
+        n = int(t[6]); acc = t[7:7 + n]; ops = t[7 + n + 2:]
+        return t[:5], acc, ops
+    def render(head, acc, ops):
+        return " ".join(head + ["P", str(len(acc))] + acc + ["O", str(len(ops))] + ops)
+    head, acc, ops = parse(line)
+    for _ in range(30):
+        cands = [(head, acc, ops[:i] + ops[i + 1:]) for i in range(len(ops)) if len(ops) > 1] + \
+                [(head, acc[:i] + acc[i + 1:], ops) for i in range(len(acc))]
+        if not cands:
+            break
+        obs = C.run_harness(binary, [render(*c) for c in cands])
+        nxt = next((c for c, o in zip(cands, obs) if xcase_bad(o)), None)
+        if nxt is None:
+            break
+        head, acc, ops = nxt
+    return render(head, acc, ops)
+
+
 def run(tier, seed):
     t0 = time.time()
     rng = random.Random(seed)
@@ -607,10 +655,26 @@ def run(tier, seed):
         distinct.setdefault(json.dumps({k: v for k, v in c.items() if not k.startswith("_")}, sort_keys=True), (c, obs))
     nt = sum(1 for (c, obs) in distinct.values() if nontrivial(c, obs))
     n_model = sum(1 for mo in model if mo is not None)
-    n_obl = len(obligations) + 2
+    # (3) a mirrored trait with associated constants (default + override, default kept, no default) and provided methods of the
+    #     &self / &mut self / by-value kinds reading them: mock = plain implementor with the same constants
+    xlines = gen_xcases(rng, tier)
+    xobs = C.run_harness(binary, xlines)
+    xbad = [k for k, o in enumerate(xobs) if xcase_bad(o)]
+    # (4) the receiver conversions delegation relies on (by value, Rc/Arc sole or shared, Pin, &, &mut), on originals and clones
+    from .. import deleg_part as DP
+    from . import C15
+    dn, dpayload = (0, None)
+    if not (bad_rows or not table_ok or bad or xbad):
+        dn, dpayload = DP.run_part("C20", "deleg20", [C15.gen_case(rng) for _ in range(40 if tier == "quick" else 300)], seed,
+                                   "correspondence C20 (receiver part): unmocked provided methods through every receiver kind vs the model")
+    n_obl = len(obligations) + 4
     cov = {
         "obligations": n_obl,
-        "discharged": len(obligations) + (1 if table_ok and not bad_rows else 0) + (0 if bad else 1),
+        "discharged": len(obligations) + (1 if table_ok and not bad_rows else 0) + (0 if bad else 1) + (0 if xbad else 1) + (0 if dpayload else 1),
+        "associated_const_part": {"evaluations": len(xlines), "rule": "harness/mirrors/src/extras.rs: upstream::Chunked mirrored with `const CHUNK: usize = 2; const LIMIT: usize = 5;` "
+                                  "(CHUNK has an upstream default 4, PAD keeps its default, LIMIT has none); random scripts of accepted counts driven through put_all(&mut self), "
+                                  "describe(&self), finish(self) and direct calls; compared with a plain implementor declaring the same constants (results, call log with arguments, leftovers)"},
+        "receiver_part": {"evaluations": dn, "rule": "C15 generator (trait D: every receiver kind, original and clones)"},
         "checker_cmd": f"make -C /verif/coq ; coqc MirrorsCheck.v (regenerated) ; ./check C20 --tier {tier}",
         "trusted_base": C.TRUSTED_BASE + [
             "rustc type-checks the generated wiring program against the UPSTREAM trait signatures (harness/mirrors/src/gen.rs)",
@@ -622,11 +686,27 @@ def run(tier, seed):
                              "provided": sum(1 for r in rows if r["provided"]), "rows_ok": len(rows) - len(bad_rows)},
         "wiring_table": [{k: r[k] for k in ("upstream", "method", "provided", "obs")} for r in rows],
         "correspondence_obligation": "every case: mock = plain struct (results, buffers, call sequence, verdict); modelled cases: both = Coq model",
-        "evaluations": len(cases) + 4 * len(rows), "model_evaluations": n_model,
+        "evaluations": len(cases) + 4 * len(rows) + len(xlines) + dn, "model_evaluations": n_model + dn,
         "distinct_nontrivial": nt, "rule": RULE,
         "samples": [{"line": harness_line(i, c), "observed": impl[i]} for i, c in list(enumerate(cases))[30:33]],
         "distribution": distribution(cases, impl),
     }
+    if dpayload is not None:
+        path = C.write_replay("C20", seed, dpayload)
+        C.write_evidence("C20", tier, seed, cov, time.time() - t0, 1)
+        C.violation("C20", path)
+        return 1
+    if xbad and not (bad_rows or not table_ok or bad):
+        line = shrink_xcase(binary, xlines[xbad[0]])
+        obs = C.run_harness(binary, [line])[0]
+        payload = {"property": "C20", "seed": seed, "tier": tier, "part": "xcase", "xcase": line,
+                   "theorem_or_correspondence": "differential C20 (associated constants): mock of the mirrored upstream::Chunked vs plain implementor with the same constants",
+                   "observed": obs, "original_xcase": xlines[xbad[0]], "disagreeing_cases_in_run": len(xbad),
+                   "replay_cmd": "./check C20 --replay <this file>"}
+        path = C.write_replay("C20", seed, payload)
+        C.write_evidence("C20", tier, seed, cov, time.time() - t0, 1)
+        C.violation("C20", path)
+        return 1
     if bad_rows or not table_ok or bad:
         payload = {"property": "C20", "seed": seed, "tier": tier, "replay_cmd": "./check C20 --replay <this file>"}
         what = []
@@ -660,7 +740,7 @@ def run(tier, seed):
                                   "upstream bodies other than those transcribed in Macro/StdBodies.v are covered by the parametric theorem and the "
                                   "mock-vs-struct differential run, not by a per-body model"])
     print(f"C20: {len(obligations)} theorems closed; wiring table of {n_methods} methods / {len(traits)} traits re-checked; "
-          f"{len(cases)} differential co-executions agree ({n_model} also with the Coq model) ({time.time()-t0:.1f}s)")
+          f"{len(cases) + len(xlines)} differential co-executions agree ({n_model} also with the Coq model), {dn} receiver-kind co-executions agree ({time.time()-t0:.1f}s)")
     return 0
 
 
@@ -670,12 +750,21 @@ def expected_row_for(r):
 
 def replay(path):
     payload = json.load(open(path))
+    if payload.get("part") == "deleg":
+        from .. import deleg_part as DP
+        return DP.replay("C20", payload, path)
     traits = M.inventory()
     gen_src = M.gen_rs(traits)
     gpath = os.path.join(C.VERIF, "harness", "mirrors", "src", "gen.rs")
     if not os.path.exists(gpath) or open(gpath).read() != gen_src:
         open(gpath, "w").write(gen_src)
     binary = C.build_harness("mirrors")
+    if payload.get("part") == "xcase":
+        obs = C.run_harness(binary, [payload["xcase"]])[0]
+        print("\n".join(obs))
+        if xcase_bad(obs):
+            C.violation("C20", path); return 1
+        print("mock and plain implementor agree"); return 0
     case = payload.get("case")
     row = payload.get("wiring_row")
     if case is None and row is None:
